@@ -400,6 +400,10 @@ class List(  # pytype: disable=signature-mismatch
     self.set_native_slot("__getitem__", self.getitem_slot)
     self.set_native_slot("__getslice__", self.getslice_slot)
     self.set_native_slot("remove", self.remove_slot)
+    # For a literal that is too long to keep (see constant_folding), only
+    # pyval[:known_prefix] are the list's real leading elements; the rest of
+    # pyval are stand-ins that carry the remaining element types.
+    self.known_prefix: int | None = None
 
   def str_of_constant(self, printer: Callable[[_base.BaseValue], str]) -> str:
     return "[%s]" % ", ".join(
@@ -447,7 +451,11 @@ class List(  # pytype: disable=signature-mismatch
           unresolved = True
         else:
           self_len = len(self.pyval)
-          if -self_len <= index < self_len:
+          if self.known_prefix is not None:
+            in_range = 0 <= index < self.known_prefix
+          else:
+            in_range = -self_len <= index < self_len
+          if in_range:
             results.append(self.pyval[index])
           else:
             unresolved = True
@@ -505,8 +513,8 @@ class List(  # pytype: disable=signature-mismatch
     # call_pytd will typecheck start_var and end_var.
     node, ret = self.call_pytd(node, "__getslice__", start_var, end_var)
     results = []
-    unresolved = False
-    if self.is_concrete:
+    unresolved = self.known_prefix is not None
+    if self.is_concrete and self.known_prefix is None:
       for start_val, end_val in cfg_utils.variable_product(
           [start_var, end_var]
       ):
